@@ -375,7 +375,11 @@ def as_list(v):
 
 
 def conc(I, v, what):
+    """a value that sizes a structure (count, index, split position): a symbolic one is made concrete by forking over
+    0..I.int_enum_limit (stated bound); paths above the limit are cut and counted, not claimed"""
     if is_sym(v):
+        if z3.is_int(v):
+            return I.enumerate_int(v, what)
         raise Unsupported('symbolic %s' % what)
     return v
 
